@@ -76,6 +76,8 @@ func (o c09Op) String() string {
 	switch o.Kind {
 	case "put", "complete":
 		return fmt.Sprintf("%s(%s,v%d)", o.Kind, o.Key, o.Val)
+	case "put-rejected":
+		return fmt.Sprintf("put-with-short-body(%s)", o.Key)
 	case "delete":
 		return "delete(" + o.Key + ")"
 	case "delete-ver":
@@ -100,6 +102,7 @@ func c09Alphabet(thorough bool) []c09Op {
 		{Kind: "put", Key: "d/k2", Val: 3},
 		{Kind: "copy", Key: "d/k2", Src: "k1"},
 		{Kind: "complete", Key: "k1", Val: 4},
+		{Kind: "put-rejected", Key: "k1", Val: 2},
 	}
 	if thorough {
 		ops = append(ops,
@@ -212,6 +215,15 @@ func (c *c09Runner) apply(m *c09Model, o c09Op) (anomaly string, skipped bool) {
 			return "put-failed:" + errClassAPI(err), false
 		}
 		return addWrite(o.Key, o.Val, vid), false
+	case "put-rejected":
+		// an upload that must be refused (fewer bytes than declared): the version history must not change
+		v := c.vals[o.Val]
+		short := v.Body[:len(v.Body)-1]
+		_, err := p.PutObject(st.ctx(), s3response.PutObjectInput{Bucket: sp(c09Bucket), Key: &o.Key, Body: bytes.NewReader(short), ContentLength: i64(int64(len(v.Body))), ContentType: &v.CT, Metadata: map[string]string{"w": v.Meta}})
+		if err == nil {
+			return "short-upload-accepted", false
+		}
+		return "", false
 	case "complete":
 		v := c.vals[o.Val]
 		res, err := p.CreateMultipartUpload(st.ctx(), s3response.CreateMultipartUploadInput{Bucket: sp(c09Bucket), Key: &o.Key, ContentType: &v.CT, Metadata: map[string]string{"w": v.Meta}})
@@ -502,7 +514,7 @@ func C09(r *ck.Run) {
 	if r.Thorough() {
 		depth = 5
 	}
-	r.Rule(fmt.Sprintf("breadth-first search over every program of length <= %d of put / delete / delete-by-version (newest, oldest, middle, null, a delete marker, unknown id) / copy / copy-by-version / multipart-complete / suspend / enable on two keys, from a fresh versioning-enabled bucket and from a bucket whose object predates enabling (null version), on a real posix backend with versioning directory; a state is the shortest program reaching it, successors are computed by replay, states are deduplicated on (reference version model with ids canonicalised, file counts); after EVERY step a second backend instance checks GET by key, GET and HEAD by every version id, and ListObjectVersions with max-keys 1, 2, 1000 following the returned markers against the reference model; distinct = distinct state", depth))
+	r.Rule(fmt.Sprintf("breadth-first search over every program of length <= %d of put / refused put (short body) / delete / delete-by-version (newest, oldest, middle, null, a delete marker, unknown id) / copy / copy-by-version / multipart-complete / suspend / enable on two keys, from a fresh versioning-enabled bucket, from a bucket whose object predates enabling (null version) and from a bucket whose key has a version plus a newer null version written while suspended, on a real posix backend with versioning directory; a state is the shortest program reaching it, successors are computed by replay, states are deduplicated on (reference version model with ids canonicalised, file counts); after EVERY step a second backend instance checks GET by key, GET and HEAD by every version id, and ListObjectVersions with max-keys 1, 2, 1000 following the returned markers against the reference model; distinct = distinct state", depth))
 	r.Assume("operations are at least one clock tick apart (file mtimes are pinned to a logical clock after each step); a DELETE without id of a key that has no versions may or may not create a marker (the answer says which); deleting an unknown version id may fail or be a no-op")
 	cfgs := []pxCfg{{Versioning: true}}
 	if r.Thorough() {
@@ -514,7 +526,7 @@ func C09(r *ck.Run) {
 		for ci, cfg := range cfgs {
 			st := newPxStore("c09", cfg)
 			c := &c09Runner{st: st, vals: vals, r: r}
-			for start := 0; start < 2; start++ {
+			for start := 0; start < 3; start++ {
 				type node struct{ hist []int }
 				// replay returns the model after hist, or ok=false if an anomaly was reported on the way
 				replay := func(hist []int) (*c09Model, string, bool) {
@@ -533,6 +545,26 @@ func C09(r *ck.Run) {
 					st.pinTimes(0)
 					if err := st.A.PutBucketVersioning(st.ctx(), c09Bucket, types.BucketVersioningStatusEnabled); err != nil {
 						ck.Fatal("enable: %v", err)
+					}
+					if start == 2 {
+						// k1: a version written while Enabled, then a null version written while Suspended
+						// (newer than that version), then Enabled again
+						out, err := st.A.PutObject(st.ctx(), s3response.PutObjectInput{Bucket: sp(c09Bucket), Key: sp("k1"), Body: bytes.NewReader(vals[0].Body), ContentLength: i64(int64(len(vals[0].Body))), ContentType: &vals[0].CT, Metadata: map[string]string{"w": vals[0].Meta}})
+						if err != nil || out.VersionID == "" {
+							ck.Fatal("seed version: %v", err)
+						}
+						st.pinTimes(-2)
+						if err := st.A.PutBucketVersioning(st.ctx(), c09Bucket, types.BucketVersioningStatusSuspended); err != nil {
+							ck.Fatal("suspend: %v", err)
+						}
+						if err := st.put(st.A, c09Bucket, "k1", vals[3]); err != nil {
+							ck.Fatal("seed null: %v", err)
+						}
+						st.pinTimes(-1)
+						if err := st.A.PutBucketVersioning(st.ctx(), c09Bucket, types.BucketVersioningStatusEnabled); err != nil {
+							ck.Fatal("re-enable: %v", err)
+						}
+						m.Keys["k1"] = []c09Ver{{"null", 3, false}, {out.VersionID, 0, false}}
 					}
 					report := func(i int, an string) {
 						var names []string
@@ -561,7 +593,7 @@ func C09(r *ck.Run) {
 							}
 							sig = ck.JoinSig(mode, kind)
 						}
-						r.Violation(sig, map[string]any{"config": cfg.String(), "start": []string{"fresh enabled bucket", "object k1 predates enabling (null version)"}[start],
+						r.Violation(sig, map[string]any{"config": cfg.String(), "start": []string{"fresh enabled bucket", "object k1 predates enabling (null version)", "k1 has a version and a newer null version written while suspended"}[start],
 							"program": names, "model": m.key()})
 					}
 					for i, oi := range hist {
